@@ -1,6 +1,6 @@
 (* C08 — reading from a grid never changes what any grid reports. Statements only. *)
 From Coq Require Import String.
-From Verif Require Import Base C08 C08_proofs.
+From Verif Require Import Base C08 C08_proofs C08_spawn C08_spawn_proofs.
 
 (* invariant over every finite history of read-only operations: every stored variable is the
    canonical function of the source *)
@@ -65,3 +65,27 @@ Theorem C08_interleaved_history : forall ops w j s v,
   c08_observe s v = Some Canon.
 Proof. exact world_observe. Qed.
 Print Assumptions C08_interleaved_history.
+
+(* ---- worlds in which grids are also created during the history: copy() (starts from the original's stored variables)
+   and isel / subset / cross_section / get_dual (a fresh grid) ---- *)
+
+(* creating grids and operating on other grids — the copies and derived grids included — never changes what an existing
+   grid holds, nor the module constants *)
+Theorem C08_created_grids_frame : forall ops w j, (j < length (w_grids w))%nat ->
+  forallb (fun x => negb (c08_targets j x)) ops = true ->
+  nth_error (w_grids (c08_wrun w ops)) j = nth_error (w_grids w) j /\ w_globals (c08_wrun w ops) = w_globals w.
+Proof. exact spawn_frame. Qed.
+Print Assumptions C08_created_grids_frame.
+
+(* and every observation on every grid that exists after the history — initial, copied or derived — is the fresh-grid one *)
+Theorem C08_created_grids_observe : forall ops w j s v,
+  Forall AllCanon (w_grids w) -> nth_error (w_grids (c08_wrun w ops)) j = Some s -> c08_observe s v = Some Canon.
+Proof. exact spawn_observe. Qed.
+Print Assumptions C08_created_grids_observe.
+
+(* a copy starts from exactly what its original held at that moment; the original is untouched by the copying *)
+Theorem C08_copy_snapshot : forall w i s, nth_error (w_grids w) i = Some s ->
+  nth_error (w_grids (c08_wstep w (WCopy i))) (length (w_grids w)) = Some s /\
+  nth_error (w_grids (c08_wstep w (WCopy i))) i = Some s.
+Proof. exact copy_snapshot. Qed.
+Print Assumptions C08_copy_snapshot.
